@@ -75,6 +75,44 @@ int main (void) {
 			if ((c > 0) - (c < 0) != e) fail ("cmp/extreme", S2[i], N2[j], S2[k], N2[l], c, 0, e, 0);
 			if (((c > 0) - (c < 0)) != -((nsync_time_cmp (b, a) > 0) - (nsync_time_cmp (b, a) < 0))) fail ("cmp antisymmetry", S2[i], N2[j], S2[k], N2[l], c, nsync_time_cmp (b, a), 0, 0);
 		}
+		/* (b'') add and sub at the ends of the range too, whenever the exact result (128-bit reference) is representable: the largest
+		   and the smallest times are ordinary values of the arithmetic (nsync_time_no_deadline is (max, 999999999)), as are
+		   nsync_time_zero and everything in between; plus 40000 pseudo-random pairs over the whole range */
+		{
+			unsigned long long x = 0x9E3779B97F4A7C15ULL; unsigned q;
+			const i128 lo = (i128) (-9223372036854775807L - 1) * 1000000000, hi = (i128) 9223372036854775807L * 1000000000 + 999999999;
+			for (q = 0; q < sizeof S2 / sizeof S2[0] * (sizeof N2 / sizeof N2[0]) * (sizeof S2 / sizeof S2[0]) * (sizeof N2 / sizeof N2[0]) + 40000; q++) {
+				long as, an, bs, bn; nsync_time a, b, r; i128 e;
+				unsigned nS = sizeof S2 / sizeof S2[0], nN = sizeof N2 / sizeof N2[0];
+				if (q < nS * nN * nS * nN) { as = S2[q % nS]; an = N2[(q / nS) % nN]; bs = S2[(q / nS / nN) % nS]; bn = N2[(q / nS / nN / nS) % nN]; }
+				else {
+					static const int SH[] = { 0, 1, 2, 31, 33, 62, 63, 3 };
+					x ^= x << 13; x ^= x >> 7; x ^= x << 17; as = (long) x >> SH[x % 8 == 0 ? 0 : (x >> 8) % 8];
+					x ^= x << 13; x ^= x >> 7; x ^= x << 17; an = (long) (x % 1000000000ULL);
+					x ^= x << 13; x ^= x >> 7; x ^= x << 17; bs = (long) x >> SH[(x >> 8) % 8];
+					x ^= x << 13; x ^= x >> 7; x ^= x << 17; bn = (long) (x % 1000000000ULL);
+					if ((x >> 40) % 16 == 0) { as = 9223372036854775807L; an = 999999999; }       /* nsync_time_no_deadline as an operand */
+					if ((x >> 44) % 16 == 0) { bs = 0; bn = (long) ((x >> 48) % 3); }
+				}
+				a = mk (as, an); b = mk (bs, bn);
+				e = val (a) + val (b);
+				if (e >= lo && e <= hi) {
+					cases++; nontrivial++;
+					r = nsync_time_add (a, b);
+					if (val (r) != e || NSYNC_TIME_NSEC (r) < 0 || NSYNC_TIME_NSEC (r) >= 1000000000) fail ("add/extreme", as, an, bs, bn, (long) NSYNC_TIME_SEC (r), NSYNC_TIME_NSEC (r), 0, 0);
+					else { nsync_time r2 = nsync_time_sub (r, b); if (val (r2) != val (a) || NSYNC_TIME_NSEC (r2) != an) fail ("(a+b)-b/extreme", as, an, bs, bn, (long) NSYNC_TIME_SEC (r2), NSYNC_TIME_NSEC (r2), as, an); }
+				}
+				e = val (a) - val (b);
+				if (e >= lo && e <= hi) {
+					int c;
+					cases++; nontrivial++;
+					r = nsync_time_sub (a, b);
+					if (val (r) != e || NSYNC_TIME_NSEC (r) < 0 || NSYNC_TIME_NSEC (r) >= 1000000000) fail ("sub/extreme", as, an, bs, bn, (long) NSYNC_TIME_SEC (r), NSYNC_TIME_NSEC (r), 0, 0);
+					c = nsync_time_cmp (a, b);
+					if (((c > 0) - (c < 0)) != sgn (val (r))) fail ("cmp vs sign of a-b/extreme", as, an, bs, bn, c, 0, sgn (val (r)), 0);
+				}
+			}
+		}
 		for (i = 0; i < sizeof S2 / sizeof S2[0]; i++) for (j = 0; j < sizeof N2 / sizeof N2[0]; j++) {
 			nsync_time a = mk (S2[i], N2[j]);
 			cases++;
